@@ -11,12 +11,12 @@ import (
 	"unsafe"
 
 	"github.com/cloudwego/dynamicgo/conv"
-	"github.com/cloudwego/dynamicgo/meta"
 	"github.com/cloudwego/dynamicgo/conv/j2p"
 	"github.com/cloudwego/dynamicgo/conv/j2t"
 	"github.com/cloudwego/dynamicgo/conv/p2j"
 	"github.com/cloudwego/dynamicgo/conv/t2j"
 	dhttp "github.com/cloudwego/dynamicgo/http"
+	"github.com/cloudwego/dynamicgo/meta"
 	dproto "github.com/cloudwego/dynamicgo/proto"
 	dbin "github.com/cloudwego/dynamicgo/proto/binary"
 	pg "github.com/cloudwego/dynamicgo/proto/generic"
